@@ -1,4 +1,5 @@
 import GrolProofs.EvalSafeEnv
+import GrolProofs.MemoFootprint
 /-
 C04 — automatic memoization is unobservable.
 
@@ -10,6 +11,25 @@ names: with the switch off nothing is looked up or stored; a lookup returns exac
 stored for an equal key (`set_get`); a hit replays the stored output and returns the stored result
 without touching anything else (`replay`); an entry is stored only when the callee frame's miss
 counter did not move and the result is not an error (`store_condition`).
+
+The footprint lemma (A) is proved (`GrolProofs/MemoMono.lean`, `MemoFootprint.lean`, restated at the
+end of this file): miss counters never decrease (`C04.miss_monotone`), so "after = before" is
+inherited by every step of the call (`C04.quiet_inherited`, with `During` = "is a step of");
+for the individual steps it means: no completed `del` / `TriggerNoCache` on the frame
+(`C04.no_del_in_quiet_call`), every `makeRef` reached only a function-valued binding or an
+all-caps name of a depth-0 frame (`C04.quiet_makeRef`), every nested call was a hit, failed to bind
+its arguments, or was itself miss-free on its own frame (`C04.purity_footprint`).
+
+NOT proved: (B) determinism of miss-free calls and (C) the session-level equivalence.  Both are
+relational statements about two runs whose heaps of frames differ (a hit allocates no frame, so
+frame indices in closures and references diverge): they need a simulation relation up to a
+renaming of frame indices through all 19 mutually recursive functions.  What (A) already shows is
+that the store condition does NOT imply "no outer write": a miss-free `makeRef` hands out a
+reference to any function-valued outer binding and `setNoChecks` writes through it — the real
+interpreter confirms it (known_findings.json, class
+`cached-call-skips-write-to-function-valued-outer-binding`), so a `Safe` fragment for (C) has to
+exclude assignments to names bound to functions in an enclosing scope, in addition to the
+recorded classes (closure results, redefined callees, float keys).
 -/
 namespace Grol.E
 
@@ -173,5 +193,66 @@ example : outcome (cacheGet "k" [.int 1, .str [97]])
     (stateAfter (cacheSet "k" [.int 1, .str [97]] (.int 2) [104, 105]) (initState {})) = .ok (some (.int 2, [104, 105])) :=
   C04.set_get "k" [.int 1, .str [97]] [.int 1, .str [97]] (.int 2) [104, 105] (initState {}) rfl (by decide) rfl (by decide) rfl
     (by decide)
+
+/-! ### (A) the footprint of a call that is stored -/
+
+/-- miss counters only grow and frames are only added, through any evaluation, whatever its outcome -/
+theorem C04.miss_monotone (fuel : Nat) (node : Node) (st : St) : Grows st (stateAfter (eval fuel node) st) :=
+  eval_grows fuel node st
+
+/-- "after = before" on frame `e` is inherited by every step of the computation -/
+theorem C04.quiet_inherited {α β : Type} {x : M α} {st : St} {y : M β} {s : St} {e : Nat}
+    (hd : During x st y s) (hq : Quiet e x st) : Quiet e y s := quiet_during hd hq
+
+/-- a computation that is miss-free on the current frame completed no `del` -/
+theorem C04.no_del_in_quiet_call {α : Type} {x : M α} {st s : St} {fuel : Nat} {node : Node}
+    (hd : During x st (evalDelete (fuel + 1) node) s) (hq : Quiet s.cur x st) (r : Obj) :
+    outcome (evalDelete (fuel + 1) node) s ≠ .ok r := no_del_during hd hq r
+
+/-- a miss-free `makeRef` found nothing or handed out a reference to a trusted binding: a function
+value, or an all-caps name in a depth-0 frame -/
+theorem C04.quiet_makeRef (orig : Nat) (name : String) (st : St) (r : Option Obj)
+    (hok : outcome (makeRef orig name) st = .ok r) (hq : Quiet orig (makeRef orig name) st) :
+    r = none ∨ ∃ re rn, r = some (.ref re rn) ∧ Trusted st name re rn :=
+  makeRef_go_quiet orig name st.frames.size orig st r hok hq
+
+/-- the footprint lemma for calls: a call that completes without moving its caller's miss counter
+(in particular every nested call of a call that is stored) was a cache hit, failed while binding its
+arguments, or evaluated its body without moving its own frame's miss counter -/
+theorem C04.purity_footprint (fuel : Nat) (f : FuncVal) (args : List Obj) (st : St) (v : Obj)
+    (hok : outcome (applyFunction (fuel + 1) (.func f) args) st = .ok v)
+    (hq : Quiet st.cur (applyFunction (fuel + 1) (.func f) args) st) :
+    (∃ out, outcome (cacheGet f.key args) st = .ok (some (v, out))) ∨
+    (outcome (extendFunctionEnv f args) st = .ok (.error v)) ∨
+    (∃ nenv, outcome (extendFunctionEnv f args) st = .ok (.ok nenv) ∧
+      outcome (eval fuel f.body) (bodyState (stateAfter (extendFunctionEnv f args) st) nenv) = .ok v ∧
+      Quiet nenv (eval fuel f.body) (bodyState (stateAfter (extendFunctionEnv f args) st) nenv)) :=
+  applyFunction_quiet fuel f args st v hok hq
+
+/-! ### non-vacuity: a memoized recursive function -/
+
+def fibBody : Node :=
+  .stmts [ .ifE (.inf "LTEQ" (.ident "n") (.int 1)) (.stmts [.ret (.ident "n")]) .none,
+           .inf "PLUS" (.call (.ident "fib") [.inf "MINUS" (.ident "n") (.int 1)])
+                       (.call (.ident "fib") [.inf "MINUS" (.ident "n") (.int 2)]) ]
+def fibKey : String := "func fib(n){if n<=1{return n}fib(n-1)+fib(n-2)}"
+/-- `func fib(n){ if n<=1 {return n}; fib(n-1)+fib(n-2) }` -/
+def fibDef : Node := .fn (some "fib") ["n"] false false fibKey fibBody
+def fibVal : FuncVal := ⟨some "fib", ["n"], false, false, fibKey, fibBody, 0⟩
+/-- the state after the definition -/
+def fibState : St := stateAfter (eval 10 fibDef) (initState {})
+
+/-- `fib(6)` from the state after the definition: returns 8, does not move the caller's (root)
+counter — the hypotheses of `C04.purity_footprint` — allocates 7 frames for 7 distinct arguments
+(25 calls without the cache) and leaves 7 cache entries: every level was stored -/
+example : (match run (applyFunction 100 (.func fibVal) [.int 6]) fibState with
+    | (.ok (.int v), s) => v == 8 && s.cache.length == 7 && s.frames.size == 8 &&
+        missOf s fibState.cur == missOf fibState fibState.cur
+    | _ => false) = true := by decide +kernel
+
+/-- the same call with the cache off: 25 frames, same value -/
+example : (match run (applyFunction 100 (.func fibVal) [.int 6]) { fibState with cfg := { cacheOn := false } } with
+    | (.ok (.int v), s) => v == 8 && s.cache.length == 0 && s.frames.size == 26
+    | _ => false) = true := by decide +kernel
 
 end Grol.E
